@@ -1,6 +1,448 @@
 /- Helper lemmas for C01. -/
 import SigV4.Spec.ValidateSpec
+import SigV4.Lemmas.C15
+import SigV4.Lemmas.Calendar
 
 namespace SigV4
+
+/-! ### Hex encoding -/
+
+theorem hexPair_facts : ∀ c : UInt8,
+    hexVal (hexDigitLower (c >>> (4 : UInt8))) = some (c >>> (4 : UInt8)) ∧
+    hexVal (hexDigitLower (c &&& (0xF : UInt8))) = some (c &&& (0xF : UInt8)) ∧
+    (c >>> (4 : UInt8)) * 16 + (c &&& (0xF : UInt8)) = c := by
+  apply u8_forall; decide +kernel
+
+theorem hexPair_inj (a b : UInt8)
+    (h1 : hexDigitLower (a >>> (4 : UInt8)) = hexDigitLower (b >>> (4 : UInt8)))
+    (h2 : hexDigitLower (a &&& (0xF : UInt8)) = hexDigitLower (b &&& (0xF : UInt8))) : a = b := by
+  obtain ⟨a1, a2, a3⟩ := hexPair_facts a
+  obtain ⟨b1, b2, b3⟩ := hexPair_facts b
+  rw [h1, b1] at a1
+  rw [h2, b2] at a2
+  injection a1 with a1
+  injection a2 with a2
+  rw [← a3, ← b3, a1, a2]
+
+theorem hexPair_noNL : ∀ a : UInt8,
+    hexDigitLower (a >>> (4 : UInt8)) ≠ 0x0A ∧ hexDigitLower (a &&& (0xF : UInt8)) ≠ 0x0A := by
+  apply u8_forall; decide +kernel
+
+theorem hexLower_nil : hexLower [] = [] := rfl
+
+theorem hexLower_cons (b : UInt8) (s : Bytes) :
+    hexLower (b :: s) =
+      hexDigitLower (b >>> (4 : UInt8)) :: hexDigitLower (b &&& (0xF : UInt8)) :: hexLower s := rfl
+
+theorem hexLower_length' (a : Bytes) : (hexLower a).length = 2 * a.length := by
+  induction a with
+  | nil => rfl
+  | cons b s ih => rw [hexLower_cons]; simp only [List.length_cons, ih]; omega
+
+theorem hexLower_inj (a b : Bytes) (h : hexLower a = hexLower b) : a = b := by
+  induction a generalizing b with
+  | nil =>
+    cases b with
+    | nil => rfl
+    | cons y ys => rw [hexLower_cons, hexLower_nil] at h; cases h
+  | cons x xs ih =>
+    cases b with
+    | nil => rw [hexLower_cons, hexLower_nil] at h; cases h
+    | cons y ys =>
+      rw [hexLower_cons, hexLower_cons] at h
+      injection h with h1 h
+      injection h with h2 h
+      rw [hexPair_inj x y h1 h2, ih ys h]
+
+theorem hexLower_noNL (a : Bytes) : (0x0A : UInt8) ∉ hexLower a := by
+  induction a with
+  | nil => simp [hexLower_nil]
+  | cons b s ih =>
+    rw [hexLower_cons]
+    intro hm
+    rcases List.mem_cons.1 hm with h | hm
+    · exact (hexPair_noNL b).1 h.symm
+    · rcases List.mem_cons.1 hm with h | hm
+      · exact (hexPair_noNL b).2 h.symm
+      · exact ih hm
+
+/-! ### Splitting at a line feed -/
+
+theorem nl_split_left (x x' r r' : Bytes) (hx : (0x0A : UInt8) ∉ x) (hx' : (0x0A : UInt8) ∉ x')
+    (h : x ++ 0x0A :: r = x' ++ 0x0A :: r') : x = x' ∧ r = r' := by
+  induction x generalizing x' with
+  | nil =>
+    cases x' with
+    | nil => simp only [List.nil_append, List.cons.injEq, true_and] at h; exact ⟨rfl, h⟩
+    | cons c cs =>
+      simp only [List.nil_append, List.cons_append, List.cons.injEq] at h
+      exact absurd (h.1 ▸ List.mem_cons_self) hx'
+  | cons d ds ih =>
+    cases x' with
+    | nil =>
+      simp only [List.nil_append, List.cons_append, List.cons.injEq] at h
+      exact absurd (h.1 ▸ List.mem_cons_self) hx
+    | cons c cs =>
+      simp only [List.cons_append, List.cons.injEq] at h
+      obtain ⟨h1, h2⟩ := ih cs (fun hm => hx (List.mem_cons_of_mem _ hm))
+        (fun hm => hx' (List.mem_cons_of_mem _ hm)) h.2
+      exact ⟨by rw [h.1, h1], h2⟩
+
+theorem nl_split_right (l l' y y' : Bytes) (hy : (0x0A : UInt8) ∉ y) (hy' : (0x0A : UInt8) ∉ y')
+    (h : l ++ 0x0A :: y = l' ++ 0x0A :: y') : l = l' ∧ y = y' := by
+  have h2 := congrArg List.reverse h
+  simp only [List.reverse_append, List.reverse_cons, List.append_assoc, List.singleton_append] at h2
+  obtain ⟨h3, h4⟩ := nl_split_left y.reverse y'.reverse l.reverse l'.reverse
+    (by simpa using hy) (by simpa using hy') h2
+  exact ⟨List.reverse_inj.1 h4, List.reverse_inj.1 h3⟩
+
+/-! ### The string to sign -/
+
+theorem stringToSign_eq_ok (a : Authenticator) (sts : Bytes) (h : stringToSign a = .ok sts) :
+    ∃ scope, (splitFirst 0x2F a.credential).2 = some scope ∧
+      sts = AWS4_HMAC_SHA256 ++ (0x0A :: (compactUtc a.timestamp ++ (0x0A :: (scope ++
+        (0x0A :: hexLower a.creqSha))))) := by
+  unfold stringToSign at h
+  split at h
+  · cases h
+  · rename_i x scope hs
+    simp only [Outcome.ok.injEq] at h
+    refine ⟨scope, by rw [hs], ?_⟩
+    rw [← h]
+    simp only [List.append_assoc, List.cons_append, List.nil_append]
+
+theorem stringToSign_inj (a a' : Authenticator) (sts : Bytes)
+    (h : stringToSign a = .ok sts) (h' : stringToSign a' = .ok sts)
+    (hy : 0 ≤ (utcDate a.timestamp).1 ∧ (utcDate a.timestamp).1 ≤ 9999)
+    (hy' : 0 ≤ (utcDate a'.timestamp).1 ∧ (utcDate a'.timestamp).1 ≤ 9999)
+    (hl : a.creqSha.length = a'.creqSha.length) :
+    compactUtc a.timestamp = compactUtc a'.timestamp ∧
+    (splitFirst 0x2F a.credential).2 = (splitFirst 0x2F a'.credential).2 ∧ a.creqSha = a'.creqSha := by
+  obtain ⟨sc, hsc, e⟩ := stringToSign_eq_ok a sts h
+  obtain ⟨sc', hsc', e'⟩ := stringToSign_eq_ok a' sts h'
+  rw [e] at e'
+  have e1 := List.append_cancel_left e'
+  injection e1 with _ e2
+  obtain ⟨e3, e4⟩ := List.append_inj e2
+    (by rw [(compact_shape _ hy).1, (compact_shape _ hy').1])
+  injection e4 with _ e5
+  obtain ⟨e6, e7⟩ := List.append_inj' e5
+    (by simp only [List.length_cons, hexLower_length', hl])
+  injection e7 with _ e8
+  exact ⟨e3, by rw [hsc, hsc', e6], hexLower_inj _ _ e8⟩
+
+/-! ### The credential scope (re-proved here: `Lemmas/C03` cannot be imported next to `Lemmas/Uri`) -/
+
+theorem c01_joinWith_splitOn (sep : UInt8) (s : Bytes) : joinWith [sep] (splitOn sep s) = s := by
+  induction s with
+  | nil => simp [splitOn, joinWith]
+  | cons c cs ih =>
+    by_cases hc : c = sep
+    · subst hc
+      rw [splitOn_cons_sep]
+      obtain ⟨p, ps, hps⟩ : ∃ p ps, splitOn c cs = p :: ps := by
+        cases h : splitOn c cs with
+        | nil => exact absurd h (splitOn_ne_nil c cs)
+        | cons p ps => exact ⟨p, ps, rfl⟩
+      rw [hps, joinWith_cons_cons, ← hps, ih]
+      rfl
+    · obtain ⟨p, ps, hps, e2⟩ := splitOn_cons_ne sep c cs hc
+      rw [e2]
+      rw [hps] at ih
+      cases ps with
+      | nil =>
+        simp only [joinWith] at ih ⊢
+        rw [ih]
+      | cons q qs =>
+        rw [joinWith_cons_cons] at ih ⊢
+        rw [← ih]
+        simp
+
+theorem c01_splitFirst_of_splitOn (sep : UInt8) (s x y : Bytes) (rest : List Bytes)
+    (h : splitOn sep s = x :: y :: rest) :
+    splitFirst sep s = (x, some (joinWith [sep] (y :: rest))) := by
+  induction s generalizing x with
+  | nil => simp [splitOn] at h
+  | cons c cs ih =>
+    by_cases hc : c = sep
+    · subst hc
+      rw [splitOn_cons_sep] at h
+      injection h with hx hrest
+      subst hx
+      rw [← hrest, c01_joinWith_splitOn]
+      rw [splitFirst]; simp
+    · obtain ⟨p, ps, hps, e2⟩ := splitOn_cons_ne sep c cs hc
+      rw [e2] at h
+      injection h with hx hrest
+      subst hx; subst hrest
+      rw [splitFirst, if_neg hc, ih p hps]
+
+theorem c01_prevalidate_ok (a : Authenticator) (region service : Bytes) (now : Int)
+    (h : prevalidate a region service now = .ok ()) :
+    ∃ ak, splitOn 0x2F a.credential =
+      [ak, fmtDate (utcDate a.timestamp), region, service, b!"aws4_request"] := by
+  unfold prevalidate at h
+  split at h
+  · cases h
+  · split at h
+    · cases h
+    · split at h
+      · rename_i ak cdate cregion cservice cterm heq
+        split at h
+        · rename_i hc
+          obtain ⟨h1, h2, h3, h4⟩ := hc
+          subst h1; subst h2; subst h3; subst h4
+          exact ⟨ak, heq⟩
+        · cases h
+      · cases h
+
+theorem c01_stringToSign_of_five (a : Authenticator) (ak d r sv t : Bytes)
+    (h : splitOn 0x2F a.credential = [ak, d, r, sv, t]) :
+    stringToSign a = .ok (AWS4_HMAC_SHA256 ++ [0x0A] ++ compactUtc a.timestamp ++ [0x0A]
+      ++ (d ++ [0x2F] ++ r ++ [0x2F] ++ sv ++ [0x2F] ++ t) ++ [0x0A] ++ hexLower a.creqSha) := by
+  unfold stringToSign
+  rw [c01_splitFirst_of_splitOn 0x2F a.credential ak d [r, sv, t] h]
+  simp [joinWith]
+
+/-! ### The comparison -/
+
+theorem ctEq_true_iff (a b : Bytes) : (ctEq a b).1 = true ↔ a = b := by
+  unfold ctEq
+  by_cases hl : a.length = b.length
+  · have := ctFold_fst_eq_zero a b 0 hl
+    simp only [hl, ne_eq, not_true_eq_false, if_false, beq_iff_eq, this, true_and]
+  · have hne : a ≠ b := fun e => hl (by rw [e])
+    simp [hl, hne]
+
+/-! ### Inversions -/
+
+theorem fromRequestParts_inv (H : Bytes → Bytes) (opts : Options) (other : OtherCharset)
+    (req : Request) (fp : FromParts) (h : fromRequestParts H opts other req = .ok fp) :
+    canonPath opts.s3 req.path = .ok fp.creq.path ∧ fp.creq.method = req.method ∧
+    fp.creq.headers = normalizeHeaders req.headers [] ∧ fp.creq.bodySha = hexLower (H fp.body) ∧
+    ∃ urlParams, parseQuery (req.query.getD []) = .ok urlParams ∧
+      (fp.creq.params = urlParams ∨
+        ∃ text bodyParams, parseQuery text = .ok bodyParams ∧
+          fp.creq.params = mergeParams urlParams bodyParams) := by
+  unfold fromRequestParts at h
+  split at h
+  · cases h
+  · cases h
+  · rename_i path hpath
+    split at h
+    · cases h
+    · cases h
+    · rename_i urlParams hurl
+      simp only at h
+      split at h
+      · split at h
+        · cases h
+        · cases h
+        · rename_i text _
+          split at h
+          · cases h
+          · cases h
+          · rename_i bodyParams hbody
+            repeat' split at h
+            all_goals first
+              | (injection h with h; subst h
+                 exact ⟨hpath, rfl, rfl, rfl, urlParams, hurl, .inr ⟨text, bodyParams, hbody, rfl⟩⟩)
+              | cases h
+      · injection h with h; subst h
+        exact ⟨hpath, rfl, rfl, rfl, urlParams, hurl, .inl rfl⟩
+
+theorem getAuthenticator_inv (H : Bytes → Bytes) (reqs : Requirements) (c : CanonReq)
+    (a : Authenticator) (h : getAuthenticator H reqs c = .ok a) :
+    ∃ ap t, getAuthParams reqs c = .ok ap ∧ parseIso ap.timestampStr = some t ∧
+      a = { creqSha := H (canonicalRequest c ap.signedHeaders), credential := ap.credential,
+            sessionToken := ap.sessionToken, signature := ap.signature, timestamp := t } := by
+  unfold getAuthenticator at h
+  split at h
+  · cases h
+  · cases h
+  · rename_i ap hap
+    unfold authenticatorOf at h
+    split at h
+    · cases h
+    · rename_i t ht
+      injection h with h
+      exact ⟨ap, t, hap, ht, h.symm⟩
+
+/-! ### Output alphabets: nothing the canonicaliser emits is a line feed -/
+
+theorem mem_joinWith (sep : Bytes) (L : List Bytes) (c : UInt8) (h : c ∈ joinWith sep L) :
+    c ∈ sep ∨ ∃ x ∈ L, c ∈ x := by
+  induction L with
+  | nil => simp [joinWith] at h
+  | cons x rest ih =>
+    cases rest with
+    | nil =>
+      simp only [joinWith] at h
+      exact .inr ⟨x, List.mem_cons_self, h⟩
+    | cons y rest' =>
+      rw [joinWith_cons_cons, List.mem_append, List.mem_append] at h
+      rcases h with (h | h) | h
+      · exact .inr ⟨x, List.mem_cons_self, h⟩
+      · exact .inl h
+      · rcases ih h with h | ⟨z, hz, hc⟩
+        · exact .inl h
+        · exact .inr ⟨z, List.mem_cons_of_mem _ hz, hc⟩
+
+theorem okByte_ne_nl (c : UInt8) (h : okByte c) : c ≠ 0x0A := by
+  rintro rfl
+  rcases h with h | h
+  · revert h; decide
+  · revert h; decide
+
+theorem canonPath_noNL (s3 : Bool) (p r : Bytes) (h : canonPath s3 p = .ok r) :
+    (0x0A : UInt8) ∉ r := by
+  rw [canonPath_eq_ref] at h
+  cases hr : refPath true s3 p with
+  | none => rw [hr] at h; cases h
+  | some r' =>
+    rw [hr] at h
+    simp only [optToOutcome_some, Outcome.ok.injEq] at h
+    subst h
+    rcases refPath_some true s3 p r' hr with rfl | ⟨q, segs, st, _, _, _, rfl, _, _⟩
+    · decide
+    · intro hm
+      rcases List.mem_cons.1 hm with h | hm
+      · revert h; decide
+      · rcases mem_joinWith _ _ _ hm with h | ⟨x, hx, hc⟩
+        · revert h; decide
+        · obtain ⟨d, _, rfl⟩ := List.mem_map.1 hx
+          exact okByte_ne_nl _ (pctEncodeAll_alphabet d _ hc) rfl
+
+/-- Every byte is one the element normaliser may emit. -/
+def okBytes (b : Bytes) : Prop := ∀ c ∈ b, okByte c
+
+/-- Every name and value of the map is written in the normaliser's output alphabet. -/
+def okMap (m : QueryMap) : Prop := ∀ kv ∈ m, okBytes kv.1 ∧ ∀ v ∈ kv.2, okBytes v
+
+theorem normElem_okBytes (isPath : Bool) (x r : Bytes) (h : normElem isPath x = .ok r) : okBytes r := by
+  unfold normElem at h
+  split at h
+  · rename_i r' hr
+    split at h
+    · cases h; exact normElemRaw_alphabet isPath x _ hr
+    · cases h
+  · cases h
+  · cases h
+
+theorem okMap_assocPush (m : QueryMap) (k v : Bytes) (hm : okMap m) (hk : okBytes k) (hv : okBytes v) :
+    okMap (assocPush m k v) := by
+  induction m with
+  | nil =>
+    intro kv hkv
+    simp only [assocPush, List.mem_singleton] at hkv
+    subst hkv
+    exact ⟨hk, fun w hw => by rw [List.mem_singleton.1 hw]; exact hv⟩
+  | cons e rest ih =>
+    obtain ⟨k', vs⟩ := e
+    have he := hm (k', vs) List.mem_cons_self
+    have hrest : okMap rest := fun kv hkv => hm kv (List.mem_cons_of_mem _ hkv)
+    unfold assocPush
+    split
+    · intro kv hkv
+      rcases List.mem_cons.1 hkv with rfl | hkv
+      · refine ⟨he.1, fun w hw => ?_⟩
+        rcases List.mem_append.1 hw with hw | hw
+        · exact he.2 w hw
+        · rw [List.mem_singleton.1 hw]; exact hv
+      · exact hrest kv hkv
+    · intro kv hkv
+      rcases List.mem_cons.1 hkv with rfl | hkv
+      · exact he
+      · exact ih hrest kv hkv
+
+theorem okMap_assocExtend (m : QueryMap) (k : Bytes) (vs : List Bytes) (hm : okMap m) (hk : okBytes k)
+    (hv : ∀ v ∈ vs, okBytes v) : okMap (assocExtend m k vs) := by
+  induction m with
+  | nil =>
+    intro kv hkv
+    simp only [assocExtend, List.mem_singleton] at hkv
+    subst hkv
+    exact ⟨hk, hv⟩
+  | cons e rest ih =>
+    obtain ⟨k', vs'⟩ := e
+    have he := hm (k', vs') List.mem_cons_self
+    have hrest : okMap rest := fun kv hkv => hm kv (List.mem_cons_of_mem _ hkv)
+    unfold assocExtend
+    split
+    · intro kv hkv
+      rcases List.mem_cons.1 hkv with rfl | hkv
+      · refine ⟨he.1, fun w hw => ?_⟩
+        rcases List.mem_append.1 hw with hw | hw
+        · exact he.2 w hw
+        · exact hv w hw
+      · exact hrest kv hkv
+    · intro kv hkv
+      rcases List.mem_cons.1 hkv with rfl | hkv
+      · exact he
+      · exact ih hrest kv hkv
+
+theorem okMap_queryLoop (comps : List Bytes) (m m' : QueryMap) (hm : okMap m)
+    (h : queryLoop comps m = .ok m') : okMap m' := by
+  induction comps generalizing m with
+  | nil => simp only [queryLoop, Outcome.ok.injEq] at h; subst h; exact hm
+  | cons comp rest ih =>
+    unfold queryLoop at h
+    split at h
+    · exact ih m hm h
+    · simp only at h
+      split at h
+      · cases h
+      · cases h
+      · rename_i nk hnk
+        split at h
+        · cases h
+        · cases h
+        · rename_i nv hnv
+          exact ih _ (okMap_assocPush m nk nv hm (normElem_okBytes _ _ _ hnk)
+            (normElem_okBytes _ _ _ hnv)) h
+
+theorem okMap_parseQuery (q : Bytes) (m : QueryMap) (h : parseQuery q = .ok m) : okMap m := by
+  unfold parseQuery at h
+  split at h
+  · cases h; intro kv hkv; cases hkv
+  · exact okMap_queryLoop _ [] m (fun kv hkv => by cases hkv) h
+
+theorem okMap_mergeParams (url body : QueryMap) (hu : okMap url) (hb : okMap body) :
+    okMap (mergeParams url body) := by
+  unfold mergeParams
+  induction body generalizing url with
+  | nil => exact hu
+  | cons e rest ih =>
+    rw [List.foldl_cons]
+    have he := hb e List.mem_cons_self
+    exact ih _ (okMap_assocExtend url e.1 e.2 hu he.1 he.2)
+      (fun kv hkv => hb kv (List.mem_cons_of_mem _ hkv))
+
+theorem canonQuery_noNL (m : QueryMap) (hm : okMap m) : (0x0A : UInt8) ∉ canonQuery m := by
+  intro hc
+  unfold canonQuery at hc
+  rcases mem_joinWith _ _ _ hc with h | ⟨x, hx, hcx⟩
+  · revert h; decide
+  · obtain ⟨kv, hkv, rfl⟩ := List.mem_map.1 hx
+    have hkv' := (sortBy_perm pairLe (queryPairs m)).mem_iff.1 hkv
+    simp only [queryPairs, List.mem_flatMap, List.mem_filter, List.mem_map] at hkv'
+    obtain ⟨e, ⟨he, _⟩, v, hv, rfl⟩ := hkv'
+    have hok := hm e he
+    simp only [renderPair, List.mem_append, List.mem_singleton] at hcx
+    rcases hcx with (h | h) | h
+    · exact okByte_ne_nl _ (hok.1 _ h) rfl
+    · revert h; decide
+    · exact okByte_ne_nl _ (hok.2 v hv _ h) rfl
+
+theorem fromRequestParts_noNL (H : Bytes → Bytes) (opts : Options) (other : OtherCharset)
+    (req : Request) (fp : FromParts) (h : fromRequestParts H opts other req = .ok fp) :
+    (0x0A : UInt8) ∉ fp.creq.path ∧ (0x0A : UInt8) ∉ fp.creq.bodySha ∧
+      (0x0A : UInt8) ∉ canonQuery fp.creq.params := by
+  obtain ⟨hp, _, _, hb, urlParams, hurl, hparams⟩ := fromRequestParts_inv H opts other req fp h
+  refine ⟨canonPath_noNL _ _ _ hp, by rw [hb]; exact hexLower_noNL _, ?_⟩
+  apply canonQuery_noNL
+  rcases hparams with e | ⟨text, bodyParams, hbody, e⟩
+  · rw [e]; exact okMap_parseQuery _ _ hurl
+  · rw [e]; exact okMap_mergeParams _ _ (okMap_parseQuery _ _ hurl) (okMap_parseQuery _ _ hbody)
 
 end SigV4
